@@ -51,4 +51,25 @@ theorem stepped_eq_run_sim {σ : Type} {E : ES σ} {Rel : σ → FES.State → P
   · rw [h1, h3, ho]
   · rw [paused_sim Sm h2, paused_sim Sm hr, h3]
 
+/-- on a list with non-decreasing timestamps "up to the first one later than `T`" is "exactly
+    those with timestamp ≤ `T`" -/
+theorem takeWhile_eq_filter_of_mono (T : Nat) : ∀ (l : List (Nat × Nat)),
+    (l.map (·.2)).Pairwise (· ≤ ·) →
+    l.takeWhile (fun p => decide (p.2 ≤ T)) = l.filter (fun p => decide (p.2 ≤ T)) := by
+  intro l
+  induction l with
+  | nil => intro _; rfl
+  | cons a l ih =>
+    intro h
+    rw [List.map_cons, List.pairwise_cons] at h
+    by_cases ha : a.2 ≤ T
+    · simp only [List.takeWhile_cons, List.filter_cons, ha, decide_true, if_true]
+      rw [ih h.2]
+    · simp only [List.takeWhile_cons, List.filter_cons, ha, decide_false, Bool.false_eq_true, if_false]
+      symm
+      rw [List.filter_eq_nil_iff]
+      intro x hx
+      have := h.1 x.2 (List.mem_map_of_mem hx)
+      simp only [decide_eq_true_eq]; omega
+
 end Rt
